@@ -41,6 +41,19 @@ type clientCfg struct {
 	Of  int    `json:"of,omitempty"`
 }
 
+// poolDef is a further pool definition the control plane is asked to add while the server runs: with the id of
+// the pool that already exists (the call must be refused and change nothing the fast path sees) or with a new
+// id (a second pool).  Each definition has a network of its own (198.18.<n>.0/..), so that no address is ever
+// in two pools.
+type poolDef struct {
+	ID     uint32   `json:"id"`
+	Net    string   `json:"net"`
+	Bits   int      `json:"bits"`
+	GwHigh bool     `json:"gw_high,omitempty"`
+	DNS    []string `json:"dns"`
+	LeaseS int      `json:"lease_s"`
+}
+
 type caseCfg struct {
 	Net     string      `json:"net"`  // dotted quad, masked by Bits
 	Bits    int         `json:"bits"` // 16..30
@@ -50,6 +63,7 @@ type caseCfg struct {
 	Server  string      `json:"server"`  // gateway | outside | zero
 	PoolID  uint32      `json:"pool_id"`
 	Clients []clientCfg `json:"clients"`
+	Pools   []poolDef   `json:"pools,omitempty"` // op.P = n refers to Pools[n-1]; P = 0 is the pool above
 }
 
 type variant struct {
@@ -57,10 +71,20 @@ type variant struct {
 	Clock  string `json:"clock"` // uptime | wall | past
 	ClockS uint32 `json:"clock_s"`
 	Place  int    `json:"place"` // 0 end-flush, 1 start-flush
+	// Steer: directed probe for the reply's IP header checksum.  The frame is run once, the reply header the
+	// program produced is read, the request's Identification is replaced by the value that makes the one's-
+	// complement sum of THAT reply header need two end-around carries, and the frame is run again (that second
+	// run is the probe).  No effect if the first run does not transmit.
+	Steer bool `json:"steer,omitempty"`
 }
 
 type op struct {
-	Kind     string    `json:"kind"` // discover | request | release | decline | advance | cleanup
+	// discover | request | release | decline | advance | cleanup, and control-plane calls:
+	// addpool (PoolManager.AddPool of definition P) | rmpool (RemovePool of P's id) | setdefault (SetDefaultPool)
+	// | srvcfg (Loader.SetServerConfig again, as Server.Start does: same server IP; Alt = other MAC / ifindex)
+	Kind     string    `json:"kind"`
+	P        int       `json:"p,omitempty"`
+	Alt      bool      `json:"alt,omitempty"`
 	C        int       `json:"c"`
 	Addr     string    `json:"addr,omitempty"`  // request: own | other | none
 	Shape    string    `json:"shape,omitempty"` // request: selecting | initreboot | renewing
@@ -195,33 +219,35 @@ type run struct {
 	km     kmaps
 	loader *ebpf.Loader
 	pool   *dhcp.Pool
+	pm     *dhcp.PoolManager
 	srv    *dhcp.Server
 	conn   *capConn
 	sites  map[string][]int
 
 	// what the devices remember and why userspace dropped what it held, keyed by IDENTITY (MAC string,
 	// hex circuit-id), not by entry of Cfg.Clients: several entries may share a MAC or a circuit-id
-	offered map[string]net.IP // MAC -> address of the last userspace OFFER not yet turned into a lease
-	prevIP  map[string]net.IP // MAC -> address of the device's last lease
-	gone    map[string]string // MAC -> why userspace holds no lease for it any more
-	goneCid map[string]string // hex circuit-id -> why no userspace lease carries it any more
+	offered map[string]net.IP  // MAC -> address of the last userspace OFFER not yet turned into a lease
+	prevIP  map[string]net.IP  // MAC -> address of the device's last lease
+	gone    map[string]string  // MAC -> why userspace holds no lease for it any more
+	goneCid map[string]string  // hex circuit-id -> why no userspace lease carries it any more
 	vlanIn  map[[2]uint16]bool // vlan_subscriber_pools keys the harness itself has injected and not removed
 	dump    map[string][]kentry
-	flagged map[string]bool    // cache entries already reported by the map-level invariant
-	lastAcc map[string]string  // MAC -> access shape of the message userspace last acknowledged for it
-	events  map[string]bool    // identity events that have happened so far in this history
+	flagged map[string]bool   // cache entries already reported by the map-level invariant
+	lastAcc map[string]string // MAC -> access shape of the message userspace last acknowledged for it
+	events  map[string]bool   // identity events that have happened so far in this history
 	xid     uint32
 	dirty   bool // the runner's copy of the maps is out of date
 	fresh   bool // x.dump is what the kernel maps hold now
 
-	viol    []violation
-	cls     map[string]bool
-	log     []string
-	nt      bool
-	probes  int
-	tx      int
-	skipped int
-	harness string // harness-side failure (inconclusive)
+	viol     []violation
+	cls      map[string]bool
+	log      []string
+	nt       bool
+	probes   int
+	tx       int
+	txDouble int // transmitted replies whose IP header sum needs two end-around carries
+	skipped  int
+	harness  string // harness-side failure (inconclusive)
 }
 
 func (x *run) logf(f string, a ...any) { x.log = append(x.log, fmt.Sprintf(f, a...)) }
@@ -265,6 +291,7 @@ func newRun(rc *bpfnative.Client, tc *tcase) (*run, error) {
 		return nil, err
 	}
 	x.pool = pool
+	x.pm = pm
 	srv, err := dhcp.NewServer(dhcp.ServerConfig{Interface: "lo", ServerIP: x.g.serverIP}, loader, pm, logger)
 	if err != nil {
 		return nil, err
@@ -396,18 +423,12 @@ func dumpKernelMap(m *cebpf.Map) ([]kentry, error) {
 	return out, nil
 }
 
-// staticMaps are written once by the set-up (AddPool, SetServerConfig) and never by a DHCP message.
-var staticMaps = map[string]bool{"ip_pools": true, "server_config": true}
-
 // dumpMaps reads the kernel maps the control plane writes (raw bytes, sorted by key).
 func (x *run) dumpMaps() error {
 	if x.dump == nil {
 		x.dump = map[string][]kentry{}
 	}
 	for _, n := range cacheMaps {
-		if _, have := x.dump[n]; have && staticMaps[n] {
-			continue
-		}
 		d, err := dumpKernelMap(x.km[n])
 		if err != nil {
 			return fmt.Errorf("iterate kernel map %s: %w", n, err)
@@ -543,6 +564,62 @@ func (x *run) checkCache(tab leaseTab, event string) {
 		case val != macU64(l.MAC):
 			x.flagged[id] = true
 			x.fail("C03/cache-mismatch/circuit_id_map/mac/"+event, "circuit_id_map[hash of %x] = %012x, userspace's lease on that circuit belongs to %s", l.CircuitID, val, l.MAC)
+		}
+	}
+	// ip_pools[id] / server_config = what userspace puts into a reply for that pool: subnet mask, router, DNS
+	// servers, lease time; server identifier
+	for _, e := range x.dump["ip_pools"] {
+		if len(e.k) < 4 || len(e.v) < 24 {
+			x.harness = fmt.Sprintf("ip_pools entry of %d/%d bytes", len(e.k), len(e.v))
+			return
+		}
+		id := binary.LittleEndian.Uint32(e.k)
+		up := x.pm.GetPool(id)
+		flag := func(field, f string, a ...any) {
+			fid := fmt.Sprintf("ip_pools/%d/%s", id, field)
+			if x.flagged[fid] {
+				return
+			}
+			x.flagged[fid] = true
+			sig := "C03/cache-mismatch/ip_pools/" + field + "/" + event
+			if field == "" {
+				sig = "C03/cache-orphan/ip_pools/" + event
+			}
+			x.fail(sig, "after this step ip_pools[%d] = %x: %s", id, e.v, fmt.Sprintf(f, a...))
+		}
+		if up == nil {
+			flag("", "userspace has no pool %d (pools: %v)", id, x.userPools())
+			continue
+		}
+		le := func(off int) uint32 { return binary.LittleEndian.Uint32(e.v[off:]) }
+		ones, _ := up.SubnetMask.Size()
+		dns := func(i int) uint32 {
+			if i < len(up.DNSServers) {
+				return ipu32(up.DNSServers[i])
+			}
+			return 0
+		}
+		if int(e.v[4]) != ones {
+			flag("prefix_len", "prefix length %d, userspace sends the mask %v", e.v[4], net.IP(up.SubnetMask))
+		}
+		if le(8) != ipu32(up.Gateway) {
+			flag("gateway", "gateway %v, userspace sends router %v", u32ip(le(8)), up.Gateway)
+		}
+		if le(12) != dns(0) || le(16) != dns(1) {
+			flag("dns", "DNS %v %v, userspace sends %v", u32ip(le(12)), u32ip(le(16)), up.DNSServers)
+		}
+		if le(20) != uint32(up.LeaseTime/time.Second) {
+			flag("lease_time", "lease time %d s, userspace sends %v", le(20), up.LeaseTime)
+		}
+	}
+	for _, e := range x.dump["server_config"] {
+		if len(e.v) < 12 {
+			x.harness = fmt.Sprintf("server_config value of %d bytes", len(e.v))
+			return
+		}
+		if ip := binary.LittleEndian.Uint32(e.v[8:]); ip != ipu32(x.g.serverIP) && !x.flagged["server_config"] {
+			x.flagged["server_config"] = true
+			x.fail("C03/cache-mismatch/server_config/server_ip/"+event, "server_config.server_ip = %v, userspace's server identifier is %v", u32ip(ip), x.g.serverIP)
 		}
 	}
 	for _, e := range x.dump["vlan_subscriber_pools"] {
@@ -812,25 +889,26 @@ func (x *run) message(o op) {
 			e.Tags = 2 + e.Tags&1
 			e.Outer, e.Inner = cl.STag, cl.CTag
 		}
-		var fr []byte
-		switch {
-		case relayed:
-			dst := x.g.serverIP
-			if dst.IsUnspecified() {
-				dst = x.g.gateway
+		mkFrame := func(e encap) []byte {
+			switch {
+			case relayed:
+				dst := x.g.serverIP
+				if dst.IsUnspecified() {
+					dst = x.g.gateway
+				}
+				return buildFrame(e, serverMAC, relayMAC, ip4(x.g.relayIP), ip4(dst), true, payload)
+			case m.Ciaddr != [4]byte{} && !o.Bcast:
+				return buildFrame(e, serverMAC, m.Chaddr, m.Ciaddr, ip4(x.g.serverIP), false, payload)
 			}
-			fr = buildFrame(e, serverMAC, relayMAC, ip4(x.g.relayIP), ip4(dst), true, payload)
-		case m.Ciaddr != [4]byte{} && !o.Bcast:
-			fr = buildFrame(e, serverMAC, m.Chaddr, m.Ciaddr, ip4(x.g.serverIP), false, payload)
-		default:
-			fr = buildFrame(e, bcastMAC, m.Chaddr, [4]byte{}, [4]byte{255, 255, 255, 255}, false, payload)
+			return buildFrame(e, bcastMAC, m.Chaddr, [4]byte{}, [4]byte{255, 255, 255, 255}, false, payload)
 		}
+		fr := mkFrame(e)
 		var clock uint64
 		switch v.Clock {
 		case "wall":
 			clock = uint64(now.UnixNano())
 		case "past":
-			clock = (uint64(now.Unix()) + uint64(x.tc.Cfg.LeaseS) + 1 + uint64(v.ClockS%100000)) * 1_000_000_000
+			clock = (uint64(now.Unix()) + uint64(x.maxLeaseS()) + 1 + uint64(v.ClockS%100000)) * 1_000_000_000
 		default:
 			clock = uint64(1+v.ClockS%10_000_000)*1_000_000_000 + 123_456_789
 		}
@@ -850,6 +928,25 @@ func (x *run) message(o op) {
 		if res.Fault.Kind == bpfnative.FaultDied {
 			x.harness = "runner died: " + res.Fault.Msg
 			return
+		}
+		if v.Steer && e.Hdr && !res.Fault.Faulted() && res.Verdict == bpfnative.XDPTx {
+			// directed: read the reply header this frame produces and choose the Identification for which
+			// that header's sum needs two end-around carries; the re-run is the probe
+			if l3 := l3Offset(res.Out); l3 > 0 && l3+20 <= len(res.Out) {
+				if id, ok := steerID(res.Out[l3 : l3+20]); ok {
+					e.ID = id
+					fr = mkFrame(e)
+					x.cls["ipcsum:steered"] = true
+					if res, err = x.rc.Run("dhcp_fastpath_prog", fr, opts); err != nil {
+						x.harness = "run: " + err.Error()
+						return
+					}
+					if res.Fault.Kind == bpfnative.FaultDied {
+						x.harness = "runner died: " + res.Fault.Msg
+						return
+					}
+				}
+			}
 		}
 		x.probes++
 		x.cls["encap:"+e.name()] = true
@@ -872,6 +969,10 @@ func (x *run) message(o op) {
 		case bpfnative.XDPTx:
 			x.tx++
 			x.cls["verdict:TX"] = true
+			if l3 := l3Offset(res.Out); l3 > 0 && l3+20 <= len(res.Out) && needsTwoFolds(res.Out[l3:l3+20]) {
+				x.txDouble++
+				x.cls["ipcsum:double-fold"] = true
+			}
 			by := x.hitBy(&res)
 			x.cls["tx-by:"+by] = true
 			x.logf("  - %s -> XDP_TX (%d bytes, assignment found by %s)", desc, len(res.Out), by)
@@ -1175,20 +1276,103 @@ func (x *run) step(o op) {
 		x.srv.VerifCleanupExpired()
 		x.logf("cleanup tick")
 		x.afterStep(before, "cleanup", "", "", false)
+	case "addpool", "rmpool", "setdefault", "srvcfg":
+		x.control(o)
 	default:
 		x.message(o)
 	}
 }
 
+func (x *run) maxLeaseS() int {
+	m := x.tc.Cfg.LeaseS
+	for _, d := range x.tc.Cfg.Pools {
+		if d.LeaseS > m {
+			m = d.LeaseS
+		}
+	}
+	return m
+}
+
+// def returns pool definition p (0 = the pool the case starts with).
+func (x *run) def(p int) poolDef {
+	c := x.tc.Cfg
+	if n := len(c.Pools); p > 0 && n > 0 {
+		return c.Pools[(p-1)%n]
+	}
+	return poolDef{ID: c.PoolID, Net: x.g.network.String(), Bits: c.Bits, GwHigh: c.GwHigh, DNS: c.DNS, LeaseS: c.LeaseS}
+}
+
+func (x *run) userPools() []uint32 {
+	var ids []uint32
+	for _, st := range x.pm.AllStats() {
+		ids = append(ids, st.ID)
+	}
+	sort.Slice(ids, func(i, j int) bool { return ids[i] < ids[j] })
+	return ids
+}
+
+// control makes one control-plane call (what an operator / the daemon's start-up code does through the exported
+// API of PoolManager and Loader) and then evaluates the map-level invariant.  Nothing is asserted about the
+// call's return value: the property is about what the fast path answers afterwards.
+func (x *run) control(o op) {
+	d := x.def(o.P)
+	ev := o.Kind
+	switch o.Kind {
+	case "addpool":
+		existed := x.pm.GetPool(d.ID) != nil
+		if !existed && len(x.userPools()) >= 2 {
+			x.logf("addpool id=%d: skipped (two pools exist; with three, pkg/dhcp picks a new client's pool by Go map order)", d.ID)
+			return
+		}
+		mask := net.CIDRMask(d.Bits, 32)
+		base := ipu32(net.ParseIP(d.Net)) & binary.BigEndian.Uint32(mask)
+		gw := u32ip(base + 1)
+		if d.GwHigh {
+			gw = u32ip(base + uint32(1)<<(32-uint(d.Bits)) - 2)
+		}
+		pool, err := dhcp.NewPool(dhcp.PoolConfig{ID: d.ID, Name: fmt.Sprintf("p%d", o.P), Network: fmt.Sprintf("%s/%d", u32ip(base), d.Bits),
+			Gateway: gw.String(), DNSServers: d.DNS, LeaseTime: time.Duration(d.LeaseS) * time.Second, ClientClass: dhcp.ClientClassResidential})
+		if err != nil {
+			x.harness = "NewPool: " + err.Error()
+			return
+		}
+		err = x.pm.AddPool(pool)
+		ev = "addpool"
+		if existed {
+			ev = "addpool-dup"
+		}
+		x.logf("%s id=%d %s/%d gateway %s dns %v lease %ds -> %v", ev, d.ID, u32ip(base), d.Bits, gw, d.DNS, d.LeaseS, err)
+	case "rmpool":
+		err := x.pm.RemovePool(d.ID)
+		ev = "removepool"
+		x.logf("removepool id=%d -> %v", d.ID, err)
+	case "setdefault":
+		err := x.pm.SetDefaultPool(d.ID)
+		x.logf("setdefault id=%d -> %v", d.ID, err)
+	case "srvcfg":
+		mac, ifx := serverMAC, 2
+		if o.Alt {
+			mac, ifx = [6]byte{0x02, 0xb0, 0x00, 0x00, 0x00, 0x02}, 7
+		}
+		err := x.loader.SetServerConfig(net.HardwareAddr(mac[:]), x.g.serverIP, ifx)
+		ev = "serverconfig"
+		x.logf("serverconfig mac=%x ifindex=%d server-ip %s -> %v", mac, ifx, x.g.serverIP, err)
+	}
+	x.event(ev)
+	x.dirty, x.fresh = true, false
+	x.checkCache(x.table(), ev)
+}
+
 type result struct {
-	viol    []violation
-	log     []string
-	classes []string
-	nt      bool
-	probes  int
-	tx      int
-	skipped int
-	harness string
+	viol     []violation
+	log      []string
+	classes  []string
+	nt       bool
+	probes   int
+	tx       int
+	txDouble int
+	skipped  int
+	harness  string
 }
 
 // execCase runs one case inside a synctest bubble (virtual time) and returns the verdict as a value.
@@ -1252,5 +1436,5 @@ func execInBubble(rc *bpfnative.Client, tc *tcase) result {
 	default:
 		x.cls["steps:>50"] = true
 	}
-	return result{viol: x.viol, log: x.log, classes: sortedSet(x.cls), nt: x.nt, probes: x.probes, tx: x.tx, skipped: x.skipped, harness: x.harness}
+	return result{viol: x.viol, log: x.log, classes: sortedSet(x.cls), nt: x.nt, probes: x.probes, tx: x.tx, txDouble: x.txDouble, skipped: x.skipped, harness: x.harness}
 }
